@@ -113,11 +113,16 @@ func World(t *T, s *model.Schema, d *model.Doc, opName string, vars map[string]*
 							kinds = append(kinds, "inf")
 						}
 					case named.Kind == model.KEnum:
-						kinds = append(kinds, "badenum", "badleaf")
+						kinds = append(kinds, "badenum", "badleaf", "leafpanic")
+					case named.Kind == model.KScalar && !builtinScalar(ty.Name):
+						kinds = append(kinds, "badleaf", "leafpanic")
 					}
 				}
 				if named.Kind == model.KIface || named.Kind == model.KUnion || (named.Kind == model.KObject && named.HasIsTypeOf) {
 					kinds = append(kinds, "type")
+					if ty.Nullable().IsList() {
+						kinds = append(kinds, "type", "type") // the same decision for every element
+					}
 				}
 			} else if ty.Nullable().IsList() && chance(t, 30, "elemOutcome") {
 				kinds = []string{"elem"}
@@ -146,6 +151,14 @@ func World(t *T, s *model.Schema, d *model.Doc, opName string, vars map[string]*
 				if o.Hostile && et.Nullable().IsList() && chance(t, 50, "elemNotList") {
 					ek = "notlist"
 				}
+				if o.Hostile && et.Nullable().Named() && chance(t, 60, "elemLeaf") {
+					// one item of a list of leaves that serialises to nothing, or whose serializer raises
+					if etd := s.Type(et.Name); etd != nil && (etd.Kind == model.KEnum || (etd.Kind == model.KScalar && !builtinScalar(et.Name))) {
+						ek = pick(t, []string{"badleaf", "leafpanic", "leafpanic"}, "elemLeafKind")
+					} else if et.Name == "Int" || et.Name == "Float" {
+						ek = "badleaf" // (String / Boolean / ID digest any value: the property is silent there)
+					}
+				}
 				w.Outcomes[fmt.Sprintf("%s/%d", key, idx)] = ref.Outcome{Kind: ek}
 			case "type":
 				tk := "rt_nil"
@@ -162,11 +175,14 @@ func World(t *T, s *model.Schema, d *model.Doc, opName string, vars map[string]*
 						}
 					}
 				}
-				if regime == "thunks" && !local {
-					continue
+				// type decisions are keyed by the field path: at a list-typed field every element
+				// gets the same decision (the same field plan meets the same wrong type repeatedly)
+				allNullable := true
+				for _, ch := range ty.Wrap {
+					allNullable = allNullable && ch != '!'
 				}
-				if !ty.Nullable().Named() {
-					continue // type decisions are keyed by the field path; keep them to non-list fields
+				if regime == "thunks" && !allNullable {
+					continue
 				}
 				w.Outcomes[key+"#type"] = ref.Outcome{Kind: tk, Arg: arg}
 			default:
@@ -183,4 +199,12 @@ func World(t *T, s *model.Schema, d *model.Doc, opName string, vars map[string]*
 		// as long as no override was placed at a non-null position (checked above).
 	}
 	return w, regime
+}
+
+func builtinScalar(name string) bool {
+	switch name {
+	case "Int", "Float", "String", "Boolean", "ID":
+		return true
+	}
+	return false
 }
